@@ -674,9 +674,11 @@ def model_tie(ctx, res, cases, results, name):
         for s in before['devices']:
             if s['name'] in l_sl and s['name'] in s_recs:
                 try:
-                    items.append('(SC %s %s %s)' % (c_record(slave_fields(s, before['internals']['slave_internals'][s['name']])),
-                                                    c_record({k: v for k, v in s_recs[s['name']].items() if k != 'last_sync'}),
-                                                    c_record(slave_fields(l_sl[s['name']], loaded['internals']['slave_internals'][s['name']]))))
+                    bi, li = before['internals']['slave_internals'][s['name']], loaded['internals']['slave_internals'][s['name']]
+                    items.append('(SC %s %s %s %s %s)' % (
+                        c_record(slave_fields(s, bi)), c_record({k: v for k, v in s_recs[s['name']].items() if k != 'last_sync'}),
+                        c_record(slave_fields(l_sl[s['name']], li)),
+                        c_record(slave_fields(s, bi, state=False)), c_record(slave_fields(l_sl[s['name']], li, state=False))))
                     owners.append((ci, 'slave', s['name']))
                 except ValueError as e:
                     res['tie_failures'].append('cannot encode slave %s: %s' % (s['name'], e))
@@ -728,9 +730,11 @@ def model_tie(ctx, res, cases, results, name):
                 'observed': items[off + j][:1500]})
 
 
-def slave_fields(s, internals):
+def slave_fields(s, internals, state=True):
+    """state=True: the slave's state (cached attributes as kept in memory, i.e. with clear-text pending passwords);
+    state=False: what GET /devices shows (passwords masked)"""
     d = {k: s.get(k) for k in ('enabled', 'name', 'scheme', 'host', 'port', 'path', 'admin_password_hash', 'poll_interval', 'listen_enabled')}
-    d['attrs'] = s.get('attrs') or {}
+    d['attrs'] = (internals.get('cached_attrs') if state and 'cached_attrs' in internals else s.get('attrs')) or {}
     prov = sorted(s.get('provisioning') or [])
     d['provisioning_attrs'] = [p for p in prov if p not in ('webhooks', 'reverse')]
     d['webhooks'] = internals['webhooks']
